@@ -103,7 +103,7 @@ STREAMS = {
     "C10": [("multi", 20, 200), ("recover", 10, 100), ("rebuild", 10, 100), ("earlydt", 8, 80)],
     "C11": [("multi", 26, 300), ("rebuild", 8, 100), ("finishing", 8, 80)],
     "C20": [("shocked", 10, 100), ("shortage", 6, 80), ("crash", 8, 80), ("multi", 6, 80), ("eventfree", 4, 60), ("excess", 6, 40),
-            ("earlydt", 6, 60), ("finishing", 4, 40), ("blackout", 6, 60)],
+            ("earlydt", 6, 60), ("finishing", 4, 40), ("blackout", 6, 60), ("starve", 6, 40)],
     "C01": [("eventfree", 40, 400)],
     "C08": [("rebuild", 26, 300), ("multi", 10, 100), ("earlydt", 8, 80), ("finishing", 6, 60)],
     "C13": [("units", 24, 200)],
@@ -140,10 +140,17 @@ PHASES = {
 STEP_ORACLES = {pid: [pid] for pid in ("C03", "C04", "C05", "C06", "C07", "C14")}
 STEP_ORACLES.update({"C04": ["C04", "C08"], "C02": ["C02"], "C20": ["C20"], "C08": ["C08"], "C09": ["C09", "C10"], "C10": ["C10"], "C11": ["C11", "C08"]})
 
+# records a property is about: what the simulation reports for them must be the model's value at each step
+REPORTED = {"C03": ["production_realised", "production_capacity"], "C04": ["final_demand_unmet", "rebuild_prod"],
+            "C06": ["intermediate_demand"], "C07": ["productive_capital_to_recover", "production_capacity"],
+            "C08": ["rebuild_demand", "rebuild_prod", "productive_capital_to_recover"], "C09": ["productive_capital_to_recover"],
+            "C10": ["productive_capital_to_recover", "production_capacity"], "C14": ["overproduction"], "C02": ["production_realised", "overproduction", "final_demand_unmet"],
+            "C05": ["production_realised"], "C11": ["rebuild_demand", "rebuild_prod"], "C20": ["production_realised", "final_demand_unmet"]}
+
 # per-run oracles, construction obligations, paired-run oracles (names resolved in harness/runner.py)
 RUN_ORACLES = {"C01": ["c01"], "C05": ["c05_run"], "C07": ["c07_capital"], "C08": ["c08_init"], "C11": ["c11_run"]}
 INIT_OBLIGATIONS = {"C01": ["mkparams"], "C02": ["mkparams"], "C03": ["mkparams"], "C06": ["mkparams"], "C07": ["mkparams", "trackerinit"], "C08": ["trackerinit"], "C13": ["trackerinit"], "C18": ["mkparams"]}
-PAIRED = {"C01": ["long_loop_c01"], "C05": ["c05_loop"], "C10": ["c10_prefix", "long_loop"], "C11": ["c11_order", "long_loop_c11"], "C13": ["c13_units"], "C18": ["c18_variants", "c18_orders"],
+PAIRED = {"C01": ["long_loop_c01"], "C05": ["c05_loop", "long_loop_c05"], "C10": ["c10_prefix", "long_loop"], "C11": ["c11_order", "long_loop_c11"], "C13": ["c13_units"], "C18": ["c18_variants", "c18_orders"],
           "C19": ["c19_shift", "c19_late"], "C17": ["c17_determinism"]}
 
 # properties whose Lean side includes tables regenerated from the source on every run
